@@ -15,7 +15,8 @@ TECHNIQUE = 'bounded-exhaustive enumeration + Hypothesis; recomputation from the
 LEVEL_TEXT = 'exploration with an exhaustive part: all forests up to the bound, every node and every ordered pair, plus random trees with clones and equal-comparing siblings'
 RULE = (
     "case = tree spec; exhaustive part: every ordered forest with <= N uniquely labelled nodes; Hypothesis part: "
-    "trees with clones and with equal-comparing siblings (same data, distinct explicit data_ids). Per case every "
+    "trees with clones and with equal-comparing siblings (same data, distinct explicit data_ids), and trees reached "
+    "through a short mutation history (remove with keep_children, move, clear, filter, ...). Per case every "
     "relationship query of every node and of every ordered pair of nodes is compared with values recomputed from "
     "the parent map / child lists of an independent structural walk (by identity). Non-trivial: some node has "
     ">= 2 siblings or depth >= 3; distinct = distinct spec."
@@ -49,8 +50,29 @@ def same_list(a, b):
 def run(case, rec):
     spec = case["spec"]
     tree, nodes = build(spec)
+    check_tree(tree, rec, len(nodes))
+
+
+def run_after_history(case, rec):
+    """The same queries on a tree that was reached through a mutation history
+    (internal representations such as 'no children' may differ from a freshly built tree)."""
+    from vlib.invariants import structural
+    from vlib.ops import Engine
+
+    eng = Engine(case["spec"], typed=False, spec2=case.get("spec2"))
+    for op in case["ops"]:
+        eng.step(op, check_unchanged=False)
+    problems, w = structural(eng.tree)
+    if problems:
+        rec.cls("abandoned:tree-not-well-formed(C01)")
+        return
+    rec.cls("after-history")
+    check_tree(eng.tree, rec, len(w.pre))
+
+
+def check_tree(tree, rec, n_expected):
     w = walk(tree)
-    if w.problems or len(w.pre) != len(nodes):
+    if w.problems or len(w.pre) != n_expected:
         rec.fail("walk", w.problems)
         return
     kids, parent, depth = w.kids, w.parent, w.depth
@@ -228,7 +250,25 @@ def hyp_cases(draw, tier):
     return {"spec": spec}
 
 
+@st.composite
+def history_cases(draw, tier):
+    from vlib import gen_ops
+
+    case = draw(gen_ops.histories(typed=False, max_ops=8, max_nodes=10,
+                                  kinds=["remove", "remove", "move", "add", "remove_children", "sort", "add_node", "set_data", "filter"]))
+    # directed tail: un-nest / remove / empty some nodes (also leaves and only children)
+    tail = draw(st.lists(st.one_of(
+        st.tuples(st.just("remove"), st.integers(0, 40), st.just(True), st.just(False)).map(list),
+        st.tuples(st.just("remove"), st.integers(0, 40), st.just(False), st.just(False)).map(list),
+        st.tuples(st.just("remove_children"), st.integers(0, 40)).map(list),
+        st.tuples(st.just("move"), st.integers(0, 40), st.integers(-1, 40), st.none()).map(list),
+    ), min_size=1, max_size=4))
+    case["ops"] = case["ops"] + tail
+    return case
+
+
 PARTS = [
+    Part("after-history", run_after_history, strategy=history_cases, n={"quick": 800, "thorough": 40000}),
     Part("exhaustive", run, enum=enum_cases),
     Part("random-clones-eqsiblings", run, strategy=lambda tier: hyp_cases(tier), n={"quick": 400, "thorough": 60000}),
 ]
